@@ -8,22 +8,21 @@ LEVEL_TEXT = ("Crash-freedom is decided as the sum of the implicit obligations (
               "distance; dimension mismatch raises ValueError), locate_droplets (every threshold rule x class request x grid family; modes > 0 in "
               "one dimension raises ValueError, a non-field TypeError, an unknown grid NotImplementedError - and nothing else), "
               "locate_droplets_in_mask (dispatch), _locate_droplets_in_mask_cartesian (whole body, all periodicity masks: indices in range, "
-              "divisor v_l + v_h != 0) and _spherical, SphericalDroplet.from_volume (finite radius >= 0 for volume >= 0), from_droplet, "
+              "divisor v_l + v_h != 0), _spherical and both cylindrical functions (empty on-axis selection -> empty emulsion: F1), SphericalDroplet.from_volume (finite radius >= 0 for volume >= 0), from_droplet, "
               "refine_droplet up to the optimiser call (least_squares requires a feasible finite start: found F10), "
               "DropletTrack.__init__/append, both matchers of from_emulsion_time_course as a whole (scipy cdist requires non-empty inputs: found F5; matrix and list indices in range) and its frame loop (unknown method -> ValueError). "
               "Each historical defect F1..F5, F10 re-appears as a named failed obligation (or, for the cylindrical path, a fuzz violation) when "
-              "its fix is reverted. NOT proved: the cylindrical locating functions, the optimiser internals (least_squares / minimize_scalar "
+              "its fix is reverted. NOT proved: the optimiser internals (least_squares / minimize_scalar "
               "black boxes), finiteness of fitted parameters - these are covered by the seeded "
               "fuzz over the documented request space (bounded) - hence level 'other'.")
 LEVEL_NOTE = ("ASSUMED: contracts of numpy / scipy.ndimage / scipy.optimize.least_squares / scipy cdist / py-pde grids as listed in the evidence; "
-              "A-FP (NaN/inf from float overflow are not modelled); the cylindrical locating functions and everything behind the optimiser call "
-              "are bounded only")
+              "A-FP (NaN/inf from float overflow are not modelled); everything behind the optimiser call is bounded only")
 CONTRACTS = [c.ident for c in (rd.PolarCoordinates(), rd.GetPhaseField(), rd.BinaryImage(), rd.DimensionMismatch(), lc.LocateDroplets(), lc.FromDroplet(),
-                               lm.LocateInMaskDispatch(), lm.LocateCartesian(), lm.LocateSpherical(), dr.FromVolume(), rf.RefineDroplet(),
+                               lm.LocateInMaskDispatch(), lm.LocateCartesian(), lm.LocateSpherical(), lm.LocateCylSingle(), lm.LocateCylWrapper(), dr.FromVolume(), rf.RefineDroplet(),
                                tk.TrackInit(), tk.MatchDistancePre(), tk.MatchOverlap(), tk.MatchDistanceLoops(), tk.FromTimeCourse(), co.TrackAppend())]
 LEMMAS = []
 CLAUSES = {"rendering any valid droplet on a compatible grid completes, finite field": "proved (cell-wise) modulo A-PDE; mismatch -> ValueError proved",
-           "locating in any finite field, any documented option combination": "proved for Cartesian / spherical paths up to the optimiser; cylindrical + refinement internals bounded",
+           "locating in any finite field, any documented option combination": "proved for all grid families up to the optimiser; refinement internals bounded",
            "tracking any time course incl. empty frames": "both matchers and the frame loop proved call-safe; whole courses also fuzzed",
            "only documented invalid requests raise, with the documented error": "proved for locate_droplets / get_phase_field",
            "returned droplets are finite": "from_volume proved; fitted parameters bounded"}
